@@ -150,28 +150,10 @@ theorem override_transparent (S : Sem) (env : Env) (n : Nat) (vals : List Val) (
 
 /-! ## (A) regenerated facts -/
 
-/-- fq definitions that REPLACE a builtin outright (no guard). Each was read; why it is meant to keep the
-    standard behaviour on JSON inputs — and that it does is what the differential run checks — is stated:
-
-    * debug/0  internal.jq:27  `(["DEBUG:", .] | tojson | printerrln), .`: prints the
-               jq-compatible `["DEBUG:",v]` line on fq's stderr and passes the input through (gojq's library has no
-               debug/0 at all, its CLI adds the same behaviour);
-    * debug/1  internal.jq:28  `(f | debug | empty), .` — jq 1.7's debug(msg);
-    * stderr/0 internal.jq:30  `printerr, .` — value to stderr, input passed through (CLI function in gojq);
-    * split/1  binary.jq:57    `[splits($val | _re_quote_meta)]` — literal split through the (guarded) regex
-               splits; correct iff `_re_quote_meta` quotes every metacharacter: `gen_reQuoteMeta_literal`;
-    * split/2  binary.jq:58    `[splits($regex; $flags)]` — gojq's own builtin.jq defines
-               `splits($re; $flags): split($re; $flags)[]`, so collecting splits/2 gives split/2 back;
-    * tojson/0 json.jq:3       `_to_json(null)` — fq's colorjson encoder (a fork of gojq's) so that decode values
-               and binaries serialise; on JSON values it is the same text (differential; CLI mode compares text);
-    * fromjson/0 json.jq:6     `decode("json") | if ._error then error(._error.error) end` — returns a DECODE VALUE:
-               the source of the two recorded findings c07-fromjson-decode-value-index and
-               c07-fromjson-of-fromjson-root-string, and of the domain extension to non-strings (assumption);
-    * input/0, inputs/0, input_filename/0  init.jq — fq's own input machinery (files are decoded, not parsed as
-               JSON): outside "ordinary JSON inputs given as values"; `input_filename` is null with `-n`, as in jq. -/
-def reimplemented : List (String × Nat) :=
-  [("debug", 0), ("debug", 1), ("stderr", 0), ("split", 1), ("split", 2), ("tojson", 0), ("fromjson", 0),
-   ("input", 0), ("inputs", 0), ("input_filename", 0)]
+/-- the justified list of outright re-implementations lives next to the model (FqModel/JqEnv.lean,
+    `reimplemented`, entry by entry with the reason) so that the driver — which must build even when a proof
+    here is broken — evaluates the same predicate on the harness's own observations -/
+abbrev reimplemented : List (String × Nat) := JqEnv.reimplemented
 
 def isGuarded : Shape → Bool
   | .guarded h => h == "_binary_or_orig" || h == "_bytes_or_orig"
